@@ -46,11 +46,11 @@ def grid(T_max, zero_variants=(S.NEG_INF,), denom=4, C=3, extreme_only_from=None
     return out
 
 
-def decode(np, D, logits, k, selector=None, lm=None, scale=1.0, bonus=0.0, eos=False, init=None, want_h=False):
+def decode(np, D, logits, k, selector=None, lm=None, scale=1.0, bonus=0.0, eos=False, init=None, want_h=False, dec=None):
     kw = {}
     if selector is not None:
         kw['relevant_logits_selector'] = selector
-    dec = D.CTCPrefixLogRawNumpyDecoder(LETTERS2 if len(logits[0]) == 3 else list(ALPHABET[:len(logits[0]) - 1]) + ['<BLANK>'], k=k, lm=lm, lm_scale=scale, insertion_bonus=bonus, **kw)
+    dec = dec or D.CTCPrefixLogRawNumpyDecoder(LETTERS2 if len(logits[0]) == 3 else list(ALPHABET[:len(logits[0]) - 1]) + ['<BLANK>'], k=k, lm=lm, lm_scale=scale, insertion_bonus=bonus, **kw)
     arr = np.asarray(logits, dtype=float)
     if want_h:
         boh, h = dec(arr, model_eos=eos, return_h=True, init_h=init)
